@@ -1,5 +1,64 @@
-import KotoVerif.Model.Cursor
+/-
+C10 — layout never changes a program's meaning: the part that is *proved*.
+
+`Model/Cursor.lean` is the only interface through which `parser.rs` observes tokens. The theorems
+below hold for ALL token lists (not only lexer outputs), all expression contexts and all cursor
+positions:
+
+* `TriviaEdit` — inserting a trailing-whitespace / end-of-line-comment run before a `NewLine`
+  token, or a whole trivia line (`Whitespace? Comment? NewLine`, several of them) after a `NewLine`
+  token, with the lexer's bookkeeping adjusted (later tokens keep kind and indent, their lines are
+  relabelled by an order-preserving relation `ρ`; bytes and columns are free). Deletion is the
+  converse edit (`Sim.symm`), sequences of edits compose (`Sim.trans`).
+* `trivia_edit_sim` — an edit yields trivia-similar token lists (`Sim ρ`).
+* `cursor_invariant_ctx` — at corresponding cursors *on significant tokens* every trivia-skipping
+  primitive returns the same result for every `Indentation` variant and every flag combination
+  (same token kind/indent, same accept/reject, same new context), and leaves corresponding cursors.
+* `cursor_invariant_pre_partial` — after `consume_until_*` the cursor sits on the last skipped
+  *trivia* token; peeks and consumes are still invariant there (given that the next token does not
+  end on a later line than the cursor, true for lexer output), but `current_indent()` itself is
+  NOT: `current_indent_pre_not_invariant` (this is defect F-C10-1 of the implementation).
+* `line_edit_at_file_start_not_invariant` — why `TriviaEdit.line` demands a preceding `NewLine`
+  token: inserting a trivia line before the first token of the file changes `same_line`
+  (defect F-C10-2 of the implementation).
+* `cursor_invariant_raw`, `peek_skips_only_trivia`, `indent_rule_table`, `queue_transparent`.
+
+Inspection (trusted, not proved; checked against parser.rs at 31f5a26): line numbers obtained from
+`current_line()` / `LexedToken::line()` / `span.start.line` are used only in `<`/`>`/`==`
+comparisons with each other (parser.rs lines 534, 641, 702, 1529, 2003, 2031, 4036, 4072) or to
+build spans (418, 2473), so relating them by an order-preserving `ρ` is all a client can observe;
+every `self.lexer` use is inside the modelled primitives.
+-/
+import KotoVerif.Lemmas.C10
+
 namespace KotoVerif.C10
 open KotoVerif.Lexer KotoVerif.Cursor
+
+/-! ### the edit relation -/
+
+/-- One trivia edit at the token level. `ρ` relates the line numbers before and after. -/
+inductive TriviaEdit (ρ : Nat → Nat → Prop) : List Lexed → List Lexed → Prop
+  /-- trailing whitespace and/or an end-of-line comment: `is_whitespace()` tokens `ins` inserted
+  directly before the `NewLine` token `n` -/
+  | eol (pre ins post post' : List Lexed) (n n' : Lexed) :
+      n.tok = .newLine → AllWs ins → Fixed ρ pre → Moved ρ (n :: post) (n' :: post') →
+      TriviaEdit ρ (pre ++ n :: post) (pre ++ (ins ++ n' :: post'))
+  /-- whole trivia lines (blank, whitespace-only, comment-only, multi-line comments) `ins` inserted
+  directly after the `NewLine` token `n` -/
+  | line (pre ins post post' : List Lexed) (n : Lexed) :
+      n.tok = .newLine → AllTrivia ins → Fixed ρ (pre ++ [n]) → Moved ρ post post' →
+      TriviaEdit ρ (pre ++ n :: post) (pre ++ n :: (ins ++ post'))
+
+theorem trivia_edit_sim {ρ ts ts'} (e : TriviaEdit ρ ts ts') : Sim ρ ts ts' := by
+  cases e with
+  | eol pre ins post post' n n' hn hi hf hm =>
+    cases hm with
+    | cons tr m =>
+      have hn' : n'.tok = .newLine := by rw [tr.tok]; exact hn
+      have := Sim.regap (ρ := ρ) [] ins hn hn' AllTrivia.nil hi.trivia m.sim
+      exact Sim.prefix hf (by simpa using this)
+  | line pre ins post post' n hn hi hf hm =>
+    have hfp : Fixed ρ pre := fun t ht => hf t (List.mem_append_left _ ht)
+    exact Sim.prefix hfp (Sim.after_nl ins hn hi hm.sim)
 
 end KotoVerif.C10
